@@ -114,11 +114,11 @@ func c06Build(c *vfCtx, cs c06Case, n int) (*c06World, []func()) {
 	pre = append(pre, vfEntry{ID: "TestZ - 2", Body: "keep2"})
 	os.WriteFile(filepath.Join(dir, "f.snap"), vfRender(pre), 0o644)
 	shared := map[string]*Config{
-		"":      WithConfig(Dir(dir), Filename("f")),
-		"true":  WithConfig(Dir(dir), Filename("f"), Update(true)),
-		"false": WithConfig(Dir(dir), Filename("f"), Update(false)),
-		"sa":    WithConfig(Dir(dir)),
-		"satrue": WithConfig(Dir(dir), Update(true)),
+		"":        WithConfig(Dir(dir), Filename("f")),
+		"true":    WithConfig(Dir(dir), Filename("f"), Update(true)),
+		"false":   WithConfig(Dir(dir), Filename("f"), Update(false)),
+		"sa":      WithConfig(Dir(dir)),
+		"satrue":  WithConfig(Dir(dir), Update(true)),
 		"safalse": WithConfig(Dir(dir), Update(false)),
 	}
 	w := &c06World{dir: dir}
